@@ -51,6 +51,9 @@ def main(argv=None):
     for fid, (text, n) in sorted(res.known.items()):
         print("KNOWN-FINDING: property=%s %s [%s, %d cases]" % (pid, text, fid, n))
     nviol = len(res.violations)
+    stale = os.path.join(common.VERIF, "replays", "%s-%s.json" % (pid, seed))
+    if os.path.exists(stale):
+        os.unlink(stale)
     if res.violations:
         v = res.violations[0]
         path = common.write_replay(pid, seed, {"property": pid, "kind": "failing-input",
